@@ -666,7 +666,9 @@ func TestCheck(t *testing.T) {
 	// the (virtual) clock moves far beyond every TTL and the universe is replaced. Nothing of the old one may show.
 	var clockOffset atomic.Int64
 	clockBase := time.Date(2030, 1, 1, 0, 0, 0, 0, time.UTC)
-	restoreClock := ech.VerifSetClock(func() time.Time { return clockBase.Add(time.Duration(clockOffset.Load()) * time.Second) })
+	// time.Unix, not clockBase.Add(seconds*time.Second): the offset grows by 10^6 s per history case and a Duration
+	// overflows after 9.2*10^9 s, which made the clock jump BACK once every 18446 such cases (thorough tier only).
+	restoreClock := ech.VerifSetClock(func() time.Time { return time.Unix(clockBase.Unix()+clockOffset.Load(), 0) })
 	defer restoreClock()
 	n := r.N(3000, 150000)
 	r.Parallel("resolve", n, func(i int, rng *mrand.Rand) {
